@@ -2,6 +2,9 @@ package rules
 
 import (
 	"fmt"
+	"strings"
+
+	"golang.org/x/tools/go/ssa"
 
 	"verif/checker/internal/core"
 )
@@ -17,12 +20,14 @@ func init() {
 			"tracked list are decided or used to learn whether H is empty; an emitted buffer that represents no element is a violation. (S2) an auxiliary buffer carried around the loop (SizeDataPacker's lastMarshalized) " +
 			"represents the pending list at the end of every pass that leaves it non-empty (the inductive invariant that makes flushing that buffer equivalent to flushing the pending list). (S3) after the loop the pending " +
 			"list is emitted on every success path, and the loop is not left early on a success path. The abstract domain is finite and the loop body acyclic: no execution, no solver. " +
+			"The list PackDataInChunks returns is the accumulator of its measuring loop. " +
 			"Not decided (value-level): that each chunk stays below the size limit; that unmarshalling inverts marshalling (trusted: the marshalizer, see C45); the error of Marshal ignored by SimpleDataPacker.",
 		Run: runC32,
 	})
 }
 
 func runC32(c *core.Ctx) {
+	c32OutputIsTheMeasuredAccumulator(c)
 	const pkg = "core/partitioning"
 	for _, a := range [][2]string{{"SizeDataPacker", "PackDataInChunks"}, {"SimpleDataPacker", "PackDataInChunks"}, {"DataSplit", "SplitDataInChunks"}} {
 		fn := anchorM(c, pkg, a[0], a[1])
@@ -68,4 +73,91 @@ func runC32(c *core.Ctx) {
 	}
 	c.Floor("C32/no-element-dropped", 6)
 	c.Floor("C32/flush-buffer-represents-pending", 1)
+}
+
+// c32OutputIsTheMeasuredAccumulator: what SizeDataPacker.PackDataInChunks hands back is the list
+// its loop built chunk by chunk, each chunk flushed behind a comparison of the ENCODED size with
+// the limit. A successful return of anything else - e.g. one Marshal of the whole input behind a
+// test of the raw sizes - emits a multi-element chunk nobody measured (the encoding adds per-element
+// overhead, so raw < limit does not give encoded < limit).
+func c32OutputIsTheMeasuredAccumulator(c *core.Ctx) {
+	fn := anchorM(c, "core/partitioning", "SizeDataPacker", "PackDataInChunks")
+	if fn == nil {
+		return
+	}
+	// the accumulator: the list the flushes append to inside the loop
+	var accRoot ssa.Value
+	core.Instrs(fn, func(in ssa.Instruction) {
+		call, ok := in.(*ssa.Call)
+		if !ok || core.InnermostLoop(fn, in.Block()) == nil {
+			return
+		}
+		if b, isB := call.Call.Value.(*ssa.Builtin); !isB || b.Name() != "append" {
+			return
+		}
+		if !strings.HasSuffix(call.Type().String(), "[][]byte") {
+			return
+		}
+		// follow the destination back to its allocation outside the loop
+		v := call.Call.Args[0]
+		seen := map[ssa.Value]bool{}
+		for v != nil && !seen[v] {
+			seen[v] = true
+			switch x := v.(type) {
+			case *ssa.Phi:
+				v = nil
+				for _, e := range x.Edges {
+					if _, isMk := e.(*ssa.MakeSlice); isMk {
+						accRoot = e
+					} else if sl, isSl := e.(*ssa.Slice); isSl {
+						accRoot = sl
+					}
+				}
+			case *ssa.Call:
+				v = x.Call.Args[0]
+			default:
+				v = nil
+			}
+		}
+	})
+	n := 0
+	for _, r := range core.Returns(fn) {
+		if !core.NilReturn(r, nil) {
+			continue
+		}
+		n++
+		// the returned list roots at the accumulator through appends and phis only
+		ok := false
+		seen := map[ssa.Value]bool{}
+		var walk func(v ssa.Value) bool
+		walk = func(v ssa.Value) bool {
+			if v == nil || seen[v] {
+				return true
+			}
+			seen[v] = true
+			if accRoot != nil && v == accRoot {
+				ok = true
+				return true
+			}
+			switch x := v.(type) {
+			case *ssa.Phi:
+				for _, e := range x.Edges {
+					if !walk(e) {
+						return false
+					}
+				}
+				return true
+			case *ssa.Call:
+				if b, isB := x.Call.Value.(*ssa.Builtin); isB && b.Name() == "append" {
+					return walk(x.Call.Args[0])
+				}
+			}
+			return false
+		}
+		good := walk(core.RetOperand(r, 0)) && ok
+		c.Check(good, "C32/output-is-the-measured-accumulator", fmt.Sprintf("SizeDataPacker.PackDataInChunks/success#%d", n), r.Pos(),
+			"the list returned is the one the measuring loop appended to",
+			"PackDataInChunks returns "+core.ExprKey(core.RetOperand(r, 0))+", a list that was not built by the loop that compares each encoded chunk with the limit: a multi-element chunk whose encoded size nobody measured can reach or exceed the limit")
+	}
+	c.Floor("C32/output-is-the-measured-accumulator", 1)
 }
